@@ -392,26 +392,24 @@ def export_json(stats, verbose=0, category_filter=None, merchant_filter=None):
     by_month = stats.get('by_month', {})
     by_category = stats.get('by_category', {})
 
-    # Calculate gross spending and credits
-    gross_spending = sum(d['total'] for d in by_merchant.values() if d['total'] > 0)
-    credits_total = abs(sum(d['total'] for d in by_merchant.values() if d['total'] < 0))
-
-    # Calculate income and transfers from merchants by tag
-    income_total = sum(d['total'] for d in by_merchant.values()
-                       if 'income' in [t.lower() for t in d.get('tags', set())])
-    transfers_total = abs(sum(d['total'] for d in by_merchant.values()
-                              if 'transfer' in [t.lower() for t in d.get('tags', set())]))
+    # The figures analyze_transactions computed per transaction - the ones every other output
+    # format reports. (Recomputing them from merchant totals nets a refund inside its
+    # merchant and counts income merchants as spending.)
+    gross_spending = stats['spending_total']
+    credits_total = stats['credits_total']
+    income_total = stats['income_total']
+    transfers_total = abs(stats['transfers_net'])
 
     output = {
         'summary': {
-            'total_spending': round(stats['total'], 2),
+            'total_spending': round(gross_spending - credits_total, 2),  # net of credits, as in the report
             'gross_spending': round(gross_spending, 2),
             'credits_total': round(credits_total, 2),
             'monthly_budget': round(stats['monthly_avg'], 2),
             'num_months': stats['num_months'],
             'income_total': round(income_total, 2),
             'transfers_total': round(transfers_total, 2),
-            'net_cash_flow': round(income_total - stats['total'], 2) if income_total > 0 else None,  # transfers excluded
+            'net_cash_flow': round(stats['cash_flow'], 2) if income_total > 0 else None,  # transfers excluded
         },
         'by_month': {month: {'total': round(total, 2)}
                      for month, total in sorted(by_month.items())},
